@@ -122,14 +122,14 @@ theorem permutation_ls_v0_size : sizeWithin permutation_ls_v0 1 (some 1) = true 
 theorem permutation_ls_v1_size : sizeWithin permutation_ls_v1 1 (some 1) = true := by decide
 theorem permutation_ls_v2_size : sizeWithin permutation_ls_v2 1 (some 1) = true := by decide
 theorem permutation_ls_v3_size : sizeWithin permutation_ls_v3 1 (some 1) = true := by decide
-theorem real_ils_v0_size : sizeWithin real_ils_v0 1 (some 1) = false := by decide
-theorem real_ils_v1_size : sizeWithin real_ils_v1 1 (some 1) = false := by decide
-theorem real_ils_v2_size : sizeWithin real_ils_v2 1 (some 1) = false := by decide
-theorem real_ils_v3_size : sizeWithin real_ils_v3 1 (some 1) = false := by decide
-theorem permutation_ils_v0_size : sizeWithin permutation_ils_v0 1 (some 1) = false := by decide
-theorem permutation_ils_v1_size : sizeWithin permutation_ils_v1 1 (some 1) = false := by decide
-theorem permutation_ils_v2_size : sizeWithin permutation_ils_v2 1 (some 1) = false := by decide
-theorem permutation_ils_v3_size : sizeWithin permutation_ils_v3 1 (some 1) = false := by decide
+theorem real_ils_v0_size : sizeWithin real_ils_v0 1 (some 1) = true := by decide
+theorem real_ils_v1_size : sizeWithin real_ils_v1 1 (some 1) = true := by decide
+theorem real_ils_v2_size : sizeWithin real_ils_v2 1 (some 1) = true := by decide
+theorem real_ils_v3_size : sizeWithin real_ils_v3 1 (some 1) = true := by decide
+theorem permutation_ils_v0_size : sizeWithin permutation_ils_v0 1 (some 1) = true := by decide
+theorem permutation_ils_v1_size : sizeWithin permutation_ils_v1 1 (some 1) = true := by decide
+theorem permutation_ils_v2_size : sizeWithin permutation_ils_v2 1 (some 1) = true := by decide
+theorem permutation_ils_v3_size : sizeWithin permutation_ils_v3 1 (some 1) = true := by decide
 theorem real_rs_v0_size : sizeWithin real_rs_v0 1 (some 1) = true := by decide
 theorem real_rs_v1_size : sizeWithin real_rs_v1 1 (some 1) = true := by decide
 theorem real_rs_v2_size : sizeWithin real_rs_v2 1 (some 1) = true := by decide
